@@ -94,6 +94,8 @@ add("mw_timed", ["C06", "C05", "C01"], "q", progs=[P("L", mwt(1, dl=1), "U"), P(
 add("mw_flip", ["C05", "C06"], "q", progs=[P("L", mwt(1, dl=1), "U"), P("L", "set11", "U", "L", "set10", "U")], NV=1, conds=C1, MaxNow=1)
 add("mw_rd", ["C06", "C05", "C01"], "q", progs=[P("R", mwt(1, dl=1), "RU"), P("L", "set11", "U")], NV=1, conds=C1, MaxNow=1)
 add("mw_cancel", ["C05", "C06"], "q", progs=[P("L", mwt(1, cn=True), "U"), P("N")], NV=1, conds=C1)
+# a reader-mode conditional wait ended by cancellation while other readers come and go
+add("mw_cancel_rd", ["C01", "C02", "C05", "C06"], "q", progs=[P("R", mwt(1, cn=True), "RU"), P("N"), P("R", "RU", "R", "RU")], NV=1, conds=C1)
 add("mw_ww", ["C06"], "q", progs=[P("L", mwt(1), "U"), P("L", "UW", "L", "set11", "U")], NV=1, conds=C1)
 add("mw_2same", ["C06"], "t", progs=[P("L", mwt(1), "U"), P("L", mwt(1), "U"), P("L", "set11", "U")], NV=1, conds=CS)
 add("mw_2eq", ["C06"], "t", progs=[P("L", mwt(1), "U"), P("R", mwt(2), "RU"), P("L", "set11", "U")], NV=1, conds=CS)
